@@ -63,6 +63,8 @@ enum Fault {
 void enable_fault(Fault f, int permille);
 /// ask whether a harness-level fault (F_THROW) fires now (recorded decision)
 bool fault_fires(Fault f);
+/// how often faults of this kind have fired so far in this process (use differences only)
+uint64_t faults_fired(Fault f);
 /// stop all fault injection from now on (quiescent phases of a workload)
 void faults_off();
 void faults_on();
